@@ -145,6 +145,10 @@ _TEC = z3.Function("tree_error_count", *_CS, I, I)
 _TECK = z3.Function("tree_error_count_first_children", *_CS, I, I, I)
 
 
+_OWN = z3.Function("error_owner", *_CS, smt.FieldArr, I, I, I)        # ghost: the node that the p-th error of validate.tree(n) is about
+_OWNK = z3.Function("error_owner_child", *_CS, smt.FieldArr, I, I, I)  # ghost witness: the child of n in whose block position p lies
+
+
 def install_tree(w):
     """validate.node enters by its contract only (what C04 proves of it: total, rule errors only, modes agree, appends
     node_error_count tuples about n); validate.tree is verified against the recursive conjunction / concatenation."""
@@ -156,6 +160,27 @@ def install_tree(w):
     TEC = lambda s, n: _TEC(*s.cs, n)
     TECK = lambda s, n, k: _TECK(*s.cs, n, k)
     is_md = lambda s, n: s.name(n) == z3.StringVal("metadata")
+    OWN = lambda s, n, p: _OWN(*s.cs, s.arr("F:_name"), n, p)
+    OWNK = lambda s, n, p: _OWNK(*s.cs, s.arr("F:_name"), n, p)
+
+    def own_def(s, n):
+        """T-unfold of error_owner at n: the first node_error_count(n) positions are about n itself; the block of child k (positions
+        NEC(n)+TECK(n,k) .. NEC(n)+TECK(n,k+1)) repeats that child's own sequence.  The blocks tile [0, TEC(n)) because every TEC is >= 0."""
+        p, k = z3.Ints("od_p od_k")
+        ch = s.kid(n, k)
+        start = NEC(s, n) + TECK(s, n, k)
+        return z3.And(
+            smt.FA([p], z3.Implies(z3.And(0 <= p, p < NEC(s, n)), OWN(s, n, p) == n), patterns=[OWN(s, n, p)]),
+            smt.FA([k, p], z3.Implies(z3.And(0 <= k, k < s.nkids(n), z3.Not(is_md(s, n)), start <= p, p < NEC(s, n) + TECK(s, n, k + 1)),
+                                      OWN(s, n, p) == OWN(s, ch, p - start)),
+                   patterns=[z3.MultiPattern(TECK(s, n, k), OWN(s, n, p))]))
+
+    def in_document_order(s0, s, n, errs, count):
+        """the j-th appended entry is about error_owner(n, j): per-node lists concatenated in document order"""
+        j = z3.Int("do_j")
+        n0 = s0.len(errs)
+        return smt.FA([j], z3.Implies(z3.And(n0 <= j, j < n0 + count), smt.TITEM(Val.tid(s.at(errs, j)), 2) == Val.ref(OWN(s0, n, j - n0))),
+                      patterns=[s.at(errs, j)])
 
     # ---- assumed contract of validate.node (proved per rule by the C04 tasks)
     def node_ensures(s0, s, n, errs, result=None):
@@ -195,6 +220,7 @@ def install_tree(w):
         d["tec"] = TEC(s, n) == NEC(s, n) + z3.If(is_md(s, n), 0, TECK(s, n, nk))
         d["teck0"] = TECK(s, n, 0) == 0
         d["nec-nonneg"] = NEC(s, n) >= 0
+        d["own-def"] = own_def(s, n)
         return d
 
     def step(s, n, k):
@@ -208,6 +234,7 @@ def install_tree(w):
         d = {"no-new-nodes": no_new_nodes(s0, s), "top:error-count-is-the-sum-over-nodes": s.len(errs) == s0.len(errs) + TEC(s0, n), "tec-nonneg": TEC(s0, n) >= 0,
              "top:empty-iff-failfast-succeeds": (TEC(s0, n) == 0) == ALLV(s0, n)}
         d.update(good_entries(s0, s, errs, lambda t: z3.And(Val.is_ref(t), SUB(s0, n, Val.r(t)))))
+        d["top:per-node-lists-concatenated-in-document-order"] = in_document_order(s0, s, n, errs, TEC(s0, n))
         return d
 
     def raise_cond(s, n, errs):
@@ -230,6 +257,7 @@ def install_tree(w):
             d["teck-nonneg"] = TECK(s0, n, v._k) >= 0
             d["agree"] = (NEC(s0, n) + TECK(s0, n, v._k) == 0) == z3.And(VALID(s0, n), allk)
             d.update(good_entries(s0, s, errs, lambda t: z3.And(Val.is_ref(t), SUB(s0, n, Val.r(t)))))
+            d["document-order-so-far"] = in_document_order(s0, s, n, errs, NEC(s0, n) + TECK(s0, n, v._k))
         return d
 
     def loop_axioms(s0, s, v):
@@ -243,12 +271,13 @@ def install_tree(w):
     def ghost_frame_concl(s0, s):
         """T-frame: the ghost validity functions read node fields and the children structure of allocated nodes only; the only
         writes of validate.node/tree go to the errs list, which is no node's children list (used once cs_same is proved)"""
-        m = z3.Int("gf_m")
+        m, pp = z3.Ints("gf_m gf_p")
         return z3.And(
             smt.FA([m], z3.Implies(s0.is_node(m), z3.And(VALID(s, m) == VALID(s0, m), NEC(s, m) == NEC(s0, m))), patterns=[VALID(s, m)]),
             smt.FA([m], z3.Implies(s0.is_node(m), NEC(s, m) == NEC(s0, m)), patterns=[NEC(s, m)]),
             smt.FA([m], z3.Implies(s0.is_node(m), ALLV(s, m) == ALLV(s0, m)), patterns=[ALLV(s, m)]),
-            smt.FA([m], z3.Implies(s0.is_node(m), TEC(s, m) == TEC(s0, m)), patterns=[TEC(s, m)]))
+            smt.FA([m], z3.Implies(s0.is_node(m), TEC(s, m) == TEC(s0, m)), patterns=[TEC(s, m)]),
+            smt.FA([m, pp], z3.Implies(s0.is_node(m), OWN(s, m, pp) == OWN(s0, m, pp)), patterns=[OWN(s, m, pp)]))
 
     con = Contract(Q_TREE, params={"n": "Node"}, requires=requires, axioms=axioms, ensures=ensures,
                    raises=[(MetapypeRuleError, raise_cond, None)], writes=("llen", "lelem"), mods=ERR_MODS,
